@@ -510,6 +510,11 @@ func (c *Compiler) applyUsesToNode(mod, nod, use parse.Node, parentStatus schema
 		}
 	} else {
 		group, ok = gmod.LookupGrouping(gname.Local)
+		if !ok && gmod.Type() == parse.NodeSubmodule && c.owningModule(gmod) == mod {
+			// A uses written in a submodule of the module being
+			// expanded: the groupings in scope where it stands
+			group, ok = nod.LookupGrouping(gname.Local)
+		}
 	}
 	if !ok {
 		if c.skipUnknown {
